@@ -160,6 +160,37 @@ def dense_programs(tier):
     return progs
 
 
+def handler_operand_nesting():
+    """a macro nested as the handler OPERAND (it yields the handler closure): evaluated where a handler operand is evaluated — once,
+    before step 0 of the outer macro — in sequential, try and thread-spawning outer macros"""
+    progs = []
+    b0 = 'lg("0.0.i", 1) -> |v: i32| { ev("0.0.f", &v); v }'
+    b1 = 'lg("1.0.i", 2) ~-> |v: i32| { ev("1.1.f", &v); v + 1 }'
+    inner = 'join! { lg("i0.x.i", 10) -> |k: i32| { ev("i0.x.f", &k); k }, then => |k: i32| move |a: i32, b: i32| { ev("h.9.h", &(a, b, k)); a + b + k } }'
+    inner_r = '{ let k = (|k: i32| { ev("i0.x.f", &k); k })(lg("i0.x.i", 10)); (|k: i32| move |a: i32, b: i32| { ev("h.9.h", &(a, b, k)); a + b + k })(k) }'
+    fmt = '\nformat!("{:?}", x)'
+    r0 = '(|v: i32| { ev("0.0.f", &v); v })(lg("0.0.i", 1))'
+    r1 = '(|v: i32| { ev("1.1.f", &v); v + 1 })(b)'
+    for mac in ("join", "join_spawn", "spawn"):
+        d = "%s! { %s, %s, then => %s }" % (mac, b0, b1, inner)
+        r = "{ let h = %s; let a = %s; let b = lg(\"1.0.i\", 2); let b = %s; h(a, b) }" % (inner_r, r0, r1)
+        progs.append(Prog("hexprnest/%s" % mac, "let x = %s;%s" % (r, fmt), "let x = %s;%s" % (d, fmt), [[0]], "Full" if mac == "join" else "ProjSteps", meta={"macro": mac, "dsl": d, "ref": r}))
+    # try outer (map handler), inner try macro that yields Some(closure); branch 1 may fail: the handler operand is evaluated regardless
+    tb0 = 'lg("0.0.i", st_o(0, 1)) |> |v: i32| { ev("0.0.f", &v); v }'
+    tb1 = 'lg("1.0.i", st_o(4, 2)) ~|> |v: i32| { ev("1.1.f", &v); v + 1 }'
+    tinner = 'try_join! { lg("i0.x.i", Some(10)) |> |k: i32| { ev("i0.x.f", &k); k }, map => |k: i32| move |a: i32, b: i32| { ev("h.9.h", &(a, b, k)); a + b + k } }.unwrap()'
+    tinner_r = '{ let k = lg("i0.x.i", Some(10)).map(|k: i32| { ev("i0.x.f", &k); k }); k.map(|k: i32| move |a: i32, b: i32| { ev("h.9.h", &(a, b, k)); a + b + k }).unwrap() }'
+    d = "try_join! { %s, %s, map => %s }" % (tb0, tb1, tinner)
+    r = """'r: { let h = %s;
+    let a = lg("0.0.i", st_o(0, 1)).map(|v: i32| { ev("0.0.f", &v); v });
+    let b = lg("1.0.i", st_o(4, 2));
+    if a.is_none() || b.is_none() { break 'r None; }
+    let b = b.map(|v: i32| { ev("1.1.f", &v); v + 1 });
+    match (a, b) { (Some(a), Some(b)) => Some(h(a, b)), _ => None } }""" % tinner_r
+    progs.append(Prog("hexprnest/try_join", "let x = %s;%s" % (r, fmt), "let x = %s;%s" % (d, fmt), [[0]], "Full", meta={"macro": "try_join", "dsl": d, "ref": r}, sub=[0, 4]))
+    return progs
+
+
 def sibling_programs(tier):
     """the SAME deep, capture-rich try branch (error-side callback, capture, non-closure operand and inspection in every step) alone,
     next to 1 / 2 / 11 shallow siblings in front of it, behind it and around it, and next to an equally deep and a deeper one; every
